@@ -527,7 +527,27 @@ func c12Redirect(w *World, r *Report, httpT, grpcT *ssa.Function) {
 	r.Ob(ri, "grpc|location", grpcT.Pos(), gLoc, "Location must be the redirect error's RedirectTo")
 	r.Ob(ri, "grpc|status", grpcT.Pos(), gCode, "the denied status must be the redirect error's Code")
 	// the redirect error handler's code: configured or 302
-	ctor := w.Func("internal/rules/mechanisms/errorhandlers", "newRedirectErrorHandler")
+	// the constructor of the redirect error handler: the package-level function of the error
+	// handlers package that builds the handler type producing RedirectError from a raw config
+	var ctor *ssa.Function
+	for _, fn := range w.Funcs {
+		if w.isMockFn(fn) || fn.Parent() != nil || fn.Signature.Recv() != nil || !strings.HasSuffix(fnPkgPath(fn), "/internal/rules/mechanisms/errorhandlers") || fn.Signature.Results().Len() != 2 {
+			continue
+		}
+		rt := derefNamed(fn.Signature.Results().At(0).Type())
+		if rt == nil || !strings.Contains(strings.ToLower(rt.Obj().Name()), "redirect") {
+			continue
+		}
+		takesRaw := false
+		for i := 0; i < fn.Signature.Params().Len(); i++ {
+			if _, isMap := fn.Signature.Params().At(i).Type().Underlying().(*types.Map); isMap {
+				takesRaw = true
+			}
+		}
+		if takesRaw {
+			ctor = fn
+		}
+	}
 	ok := false
 	if ctor != nil {
 		r.Analysed(w.FnName(ctor))
@@ -696,7 +716,19 @@ func c12Chain(w *World, r *Report) {
 		})
 		r.Ob(ri, "Unwrap|yields-rest", fn.Pos(), ok && sawRest, msg)
 	}
-	if fn := w.Method(ec, "causedBy"); fn != nil {
+	// the worker behind CausedBy (resolved through the call, not by name)
+	var causedByFn *ssa.Function
+	if pub := w.Method(ec, "CausedBy"); pub != nil {
+		for _, ci := range callsIn(pub) {
+			if g := ci.Common().StaticCallee(); g != nil && g.Blocks != nil && g.Signature.Recv() != nil && derefNamed(g.Signature.Recv().Type()) == ec {
+				causedByFn = g
+			}
+		}
+		if causedByFn == nil {
+			causedByFn = pub
+		}
+	}
+	if fn := causedByFn; fn != nil {
 		r.Analysed(w.FnName(fn))
 		appendTail, setTail, headOnce := false, false, true
 		eachInstr(fn, func(in ssa.Instruction) {
